@@ -564,14 +564,20 @@ class PlanJoinTablesQuery:
         if item.conditions:
             row_dict = {}
             for i, el in enumerate(item.conditions):
-                if isinstance(el.args[0], Identifier) and el.op == '=':
-                    col_name = el.args[0].parts[-1]
+                if len(el.args) != 2:
+                    continue
+                arg_col, arg_val = el.args
+                if not isinstance(arg_col, Identifier):
+                    # 'x' = col
+                    arg_col, arg_val = arg_val, arg_col
+                if isinstance(arg_col, Identifier) and el.op == '=':
+                    col_name = arg_col.parts[-1]
                     if col_name.lower() == predict_target:
                         # don't add predict target to parameters
                         continue
 
-                    if isinstance(el.args[1], (Constant, Parameter)):
-                        row_dict[el.args[0].parts[-1]] = el.args[1].value
+                    if isinstance(arg_val, (Constant, Parameter)):
+                        row_dict[arg_col.parts[-1]] = arg_val.value
 
                     # exclude condition
                     el._orig_node.args = [Constant(0), Constant(0)]
